@@ -20,12 +20,6 @@ theorem char_toNat_ne {c d : Char} (h : c ≠ d) : c.toNat ≠ d.toNat := fun e 
  where char_eq_iff (c d : Char) : c = d ↔ c.toNat = d.toNat :=
   ⟨fun h => by rw [h], fun h => by rw [← Char.ofNat_toNat c, ← Char.ofNat_toNat d, h]⟩
 
-theorem B_ne {c : Char} (ha : c.toNat < 128) {k : Nat} (hk : c.toNat ≠ k) (hk2 : k < 256) : B c ≠ UInt8.ofNat k := by
-  intro e
-  have := congrArg UInt8.toNat e
-  rw [B_toNat c ha, UInt8.toNat_ofNat'] at this
-  omega
-
 theorem integerPart_zero (tail : Bytes) (ht : NextNotDigit tail) :
     integerPart (48 :: tail) = .ok 1 ∧ integerPart (45 :: 48 :: tail) = .ok 2 := by
   constructor
